@@ -1099,6 +1099,31 @@ theorem c03_default_solver_discrete_partial {solver : LinModel (Ext K) → MlpOu
       refSolve m = .infeasible ∧ ∀ ρ : String → K, srcFeasible m ρ = false) :=
   c03_default_solver_logic_partial ht h (logicModel_of_enumerated ha hs hp) hsh hok ht1 ha hspec
 
+/-- the same with `DeclOK` replaced by its decidable form for discrete declarations (`Ref.DiscreteDeclOK`: Boolean, or an
+`IntegerRange` within `i32`, non-empty when never used) and distinct names: every hypothesis except the recorded assumption
+`SolverSpec` about microlp is now a FINITE CHECK on the model. -/
+theorem c03_default_solver_discrete_checked_partial {solver : LinModel (Ext K) → MlpOutcome (Ext K)}
+    {m : Model (Ext K)} {t : K} (ht : 0 ≤ t) {maxSteps : Nat} {lm : LinModel (Ext K)}
+    (h : Compile.linearize m (.fin t) maxSteps = .ok lm)
+    {asg : List (List (String × K))} (ha : assignments m.domain = some asg)
+    (hs : SidesOK m) (hp : ∀ a ∈ asg, PointOK m (lookup a))
+    (hsh : AssertShape m) (hnd : (m.domain.map (·.name)).Nodup) (hd : ∀ d ∈ m.domain, DiscreteDeclOK d)
+    (ht1 : t < 1 ∨ NoIntegerVars m.domain) (hspec : SolverSpec lm (solver lm)) :
+    (∀ sol, oneShot solver m t maxSteps = .ok sol → sol.status = .optimal →
+      srcFeasible m (assignmentOf sol) = true ∧
+      (m.optType ≠ .satisfy → ∃ v w, refSolve m = .optimal v w ∧ sol.value = .fin v) ∧
+      (m.optType = .satisfy → ∃ w, refSolve m = .feasibleAny w)) ∧
+    (oneShot solver m t maxSteps = .err "Infeasible" →
+      refSolve m = .infeasible ∧ ∀ ρ : String → K, srcFeasible m ρ = false) :=
+  c03_default_solver_discrete_partial ht h ha hs hp hsh (declOK_of_discrete hnd hd) ht1 hspec
+
+/-- non-vacuity of the decidable declaration check. -/
+example : DeclOK (exBool : Model (Ext ℚ)).domain :=
+  declOK_of_discrete (by decide) (by
+    intro d hd
+    simp only [Compose.exBool, List.mem_cons, List.mem_nil_iff, or_false] at hd
+    rcases hd with rfl | rfl <;> exact Or.inl rfl)
+
 /-- non-vacuity: the finite check succeeds on `exBool` (`min x s.t. x ≤ y`, Booleans). -/
 example : LogicModel (exBool : Model (Ext ℚ)) (exBool : Model (Ext ℚ)).domain := by
   refine c03_logicModel_of_enumerated
